@@ -13,6 +13,6 @@ Extraction Language OCaml.
 Extraction "aes.ml" force_number_types
   x_key_expand_aesni x_encrypt_block_aesni x_key_expansion x_cipher x_nr_of x_aes_encrypt_slow
   x_init2 x_seek x_stream_cfg x_aesctr_buf x_ctr_spec x_ctr_spec_from
-  x_key_free_aesni x_key_free_sw x_aesctr_free le64 all_zero
+  x_key_free_aesni x_key_free_sw x_key_free_sw_ni x_aesctr_free le64 all_zero
   x_selection x_lib_key_expand x_lib_block x_lib_stream
   selftest1_key selftest1_ptext selftest1_ctext selftest2_key selftest2_ptext selftest2_ctext.
